@@ -21,9 +21,11 @@ Parameters (owned by other properties, supplied by the caller): ECDSA `sign`/`ve
 of an input for a hash type (`digest`; C04), whether an input already validates under the default flags (`valid`;
 C03), BIP32 derivation (`derive`; C09).
 
-The symbolic execution of `determine_constraints` is *not* mirrored: `solve` says, template by template, which stack
-atoms it creates (`x_i`, `w_i`) and what the three registered solvers put into them.  It is tied to the code by exact
-equality of the bytes `tx.sign` writes.
+`solve` here is the *result-level* model: it says, template by template, which stack atoms the symbolic run creates (`x_i`, `w_i`)
+and what the three registered solvers put into them.  The symbolic machinery itself (`determine_constraints`, the traceback hook,
+`solve_for_constraints`) is mirrored in `Model/Constraints.lean` / `Model/ConstraintSolver.lean` (`Solve.solve`), and
+`C05_solve_machinery_*` prove that it returns what `solveBase` returns for every standard template; both are tied to the code by
+exact equality of what they print.
 -/
 namespace Pycoin.Sign
 open Pycoin Pycoin.Curve
